@@ -19,6 +19,9 @@ pub struct TextReader<R> {
     staged: [u8; 4],
     staged_pos: usize,
     staged_len: usize,
+    // `DecodeReaderBytes` cannot be resumed after its source failed (input it had already
+    // consumed, e.g. while looking for a BOM, is lost): the error is repeated instead.
+    failed: Option<io::ErrorKind>,
 }
 
 impl<R> TextReader<R>
@@ -32,7 +35,17 @@ where
             staged: [0; 4],
             staged_pos: 0,
             staged_len: 0,
+            failed: None,
         }
+    }
+}
+
+impl<R> TextReader<R> {
+    fn fail(&mut self, err: io::Error) -> io::Error {
+        if err.kind() != io::ErrorKind::Interrupted {
+            self.failed = Some(err.kind());
+        }
+        err
     }
 }
 
@@ -41,11 +54,14 @@ where
     R: Read,
 {
     fn read(&mut self, buf: &mut [u8]) -> io::Result<usize> {
+        if let Some(kind) = self.failed {
+            return Err(kind.into());
+        }
         if self.staged_pos == self.staged_len {
             if buf.len() >= self.staged.len() {
-                return self.inner.read(buf);
+                return self.inner.read(buf).map_err(|err| self.fail(err));
             }
-            self.staged_len = self.inner.read(&mut self.staged)?;
+            self.staged_len = self.inner.read(&mut self.staged).map_err(|err| self.fail(err))?;
             self.staged_pos = 0;
         }
         let n = buf.len().min(self.staged_len - self.staged_pos);
